@@ -297,7 +297,7 @@ def run_with_degenerate_member(ctx, m):
 
 
 def run(ctx):
-    n = ctx.n(330, 1100)
+    n = ctx.n(330, 3000)
     for it in range(n):
         if ctx.out_of_time():
             ctx.notes.append(f'time budget reached after {it} cases')
